@@ -61,13 +61,34 @@ SiblingVectorSet ==
     leaves |-> <<[method |-> p[1], anc |-> {1, 2}], [method |-> p[2], anc |-> {1}]>>] :
      k \in {KindSeq[i] : i \in 1..3}, m1 \in Modes, m2 \in Modes, p \in SiblingPairs}
 
-VectorSet == PathVectorSet \cup SiblingVectorSet
+(* shape "memo": ONE transaction whose top frame makes three calls in a row (it returns their success flags and return words):   *)
+(*   kinds = <<"approve">>  (1) a chain of CALL frames (modes, at most one "revert" after the inner call returned) whose last    *)
+(*                          frame, the owner, calls approve(top, n); (2) allowance(owner, top); (3) the top frame itself calls   *)
+(*                          transferFrom / burnFrom for an amount a with pre < a <= n (only the new allowance covers it)          *)
+(*   kinds = <<"spent">>    (1) the chain's last frame, a spender holding a large allowance, spends a - and the chain may revert; *)
+(*                          (2) allowance(owner, spender); (3) the same chain, every frame completing, spends b                  *)
+(* A reverted frame leaves NO trace for the later calls of the same transaction: the view returns the pre-transaction value,      *)
+(* the spend that only the reverted approval would cover fails, an allowance spent in a reverted frame is available again.        *)
+MemoModes == {<<"ok">>, <<"revert">>, <<"ok", "ok">>, <<"revert", "ok">>, <<"ok", "revert">>}
+MemoVectorSet ==
+  {[shape |-> "memo", kinds |-> <<c>>, modes |-> ms, leaves |-> <<[method |-> sp, anc |-> {}]>>] :
+     c \in {"approve", "spent"}, ms \in MemoModes, sp \in {"transferFrom", "burnFrom"}}
+MemoSurvives(v) == \A i \in DOMAIN v.modes : v.modes[i] = "ok"
+MemoExpect(v) ==
+  LET s == MemoSurvives(v) IN
+  [status |-> 1, surv |-> <<s>>,
+   changed |-> (v.kinds[1] = "spent" \/ s),
+   logs |-> IF v.kinds[1] = "approve" THEN (IF s THEN <<"Approval", "Transfer">> ELSE <<>>)
+            ELSE (IF s THEN <<"Transfer", "Transfer">> ELSE <<"Transfer">>)]
+
+VectorSet == PathVectorSet \cup SiblingVectorSet \cup MemoVectorSet
 
 Survives(v, j) == \A f \in v.leaves[j].anc : v.modes[f] = "ok"
 RECURSIVE LogsFrom(_, _)
 LogsFrom(v, j) == IF j > Len(v.leaves) THEN <<>> ELSE (IF Survives(v, j) THEN LogKinds(v.leaves[j].method) ELSE <<>>) \o LogsFrom(v, j + 1)
 
-Expect(v) == [status  |-> IF v.modes[1] = "ok" THEN 1 ELSE 0,
+Expect(v) == IF v.shape = "memo" THEN MemoExpect(v) ELSE
+             [status  |-> IF v.modes[1] = "ok" THEN 1 ELSE 0,
               surv    |-> [j \in 1..Len(v.leaves) |-> Survives(v, j)],
               changed |-> \E j \in 1..Len(v.leaves) : Survives(v, j),
               logs    |-> LogsFrom(v, 1)]
